@@ -12,6 +12,7 @@ import (
 	_ "github.com/formancehq/ledger/verifh/pnum"
 	_ "github.com/formancehq/ledger/verifh/pquery"
 	_ "github.com/formancehq/ledger/verifh/pschema"
+	_ "github.com/formancehq/ledger/verifh/pfault"
 	_ "github.com/formancehq/ledger/verifh/props"
 	"github.com/formancehq/ledger/verifh/reg"
 )
